@@ -13,6 +13,7 @@ require (
 	go.opentelemetry.io/collector/pdata/pprofile v0.124.0
 	go.opentelemetry.io/collector/pipeline v0.124.0
 	go.opentelemetry.io/collector/pipeline/xpipeline v0.124.0
+	go.uber.org/multierr v1.11.0
 )
 
 require (
@@ -34,7 +35,6 @@ require (
 	go.opentelemetry.io/otel/metric v1.35.0 // indirect
 	go.opentelemetry.io/otel/sdk v1.35.0 // indirect
 	go.opentelemetry.io/otel/trace v1.35.0 // indirect
-	go.uber.org/multierr v1.11.0 // indirect
 	go.uber.org/zap v1.27.0 // indirect
 	golang.org/x/net v0.39.0 // indirect
 	golang.org/x/sys v0.32.0 // indirect
